@@ -77,7 +77,10 @@ impl Api {
                 let r = catch_unwind(AssertUnwindSafe(|| ctx.transaction(|| self.exec_range(lines, pc + 1, j, out))));
                 match r {
                     Ok(()) => { if !self.dead { out[j] = format!("ok{}", self.drain_cb()); } else { out[j] = "dead".into(); } }
-                    Err(p) => { self.dead = true; out[j] = format!("PANIC {}", classify(&crate::panic_message(&*p))); }
+                    Err(p) => {
+                        // a panic while closing a transaction whose body already panicked is not reported again
+                        if self.dead { out[j] = "dead".into(); } else { self.dead = true; out[j] = format!("PANIC {}", classify(&crate::panic_message(&*p))); }
+                    }
                 }
                 pc = j + 1;
                 continue;
